@@ -27,7 +27,7 @@ FORMS = (["{a} %s {b}" % op for op in ["+", "-", "*", "/", "//", "%", "**", "<<"
             "[w for w in {a} for u in {b}]", "lambda: {a}", "lambda p={b}: {a}", "lambda *p, **q: {a}", 'f"{{{a}}}"', 'f"{{{a}!r:>{{{b}}}}}"', 'f"{{{a}:>5}}"', 'f"{{{a}=}}"', 'f"{{{a}:d}}"',
             'f"{{{a}}}{{{b}}}"', "(v := {a})", "{a}", "b'x'", "...", "1j", "10**100", "-{a}.real", "{a} if {a} else {b} if {b} else {a}", "not {a} in {b}", "{a}[{b}][{b}]", "{a}.attr.attr2",
             "{a}({b})({b})", "await {a}", "(yield {a})", "(yield from {a})", "[*{a}, *{b}]", "{a}[{b}:{b}:{b}]", "{a} @ {b}", "{a} ** -{b}", "type({a})", "len({a})", "isinstance({a}, {b})",
-            "{a}[::0]", "{a}[0:0:0]", '("\u65e5\u672c\u8a9e\u65e5\u672c\u8a9e", {a})', '"\u00e9" + {a}', "print({a}, sep={b})", "str({a})", "int({a})", "{a}.format({b})", '"%s" % {a}', '"%d %s" % ({a}, {b})', "super().{b}" if False else "super()", "__class__", "__name__"])
+            "{b} == len({a})", "{b} != len({a})", "{b} is len({a})", "{b} in (len({a}),)", "0 <= {b} < 3 == len({a})", "len({a}) == {b}", "{a}[::0]", "{a}[0:0:0]", '("\u65e5\u672c\u8a9e\u65e5\u672c\u8a9e", {a})', '"\u00e9" + {a}', "print({a}, sep={b})", "str({a})", "int({a})", "{a}.format({b})", '"%s" % {a}', '"%d %s" % ({a}, {b})', "super().{b}" if False else "super()", "__class__", "__name__"])
 CONTEXTS = [
     "v = {e}", "v = w = {e}", "v, w = {e}", "v, *w = {e}", "[v, w] = {e}", "v = 0\n    v += {e}", "v = 0\n    v @= {e}", "v: int = {e}", "v: {e} = 1", 'v: "{q}" = 1', "v: {e}",
     "return {e}", "print({e})", "print(*{e})", "print(**{e})", "print(k={e})", "@{e}\n    def g(): pass", "def g(p={e}): pass", "def g(p: {e}): pass", 'def g(p: "{q}"): pass',
